@@ -248,7 +248,7 @@ def _compile_files_cache(filenames,
                          encoding,
                          cache_dir,
                          numeric_enums):
-    key = [codec.encode('ascii')]
+    key = [codec.encode('ascii'), str(bool(numeric_enums)).encode('ascii')]
 
     if isinstance(filenames, str):
         filenames = [filenames]
